@@ -107,6 +107,20 @@ def run(pid, tier, seed, replay=None):
                 for r in sorted(set(bad[sid])):
                     if r in again.get(sid, ()):
                         rep.violation(signature(r, idx[sid], None), vlib.save_replay_text(pid, idx[sid]), "script %s" % sid)
+        if not replay:
+            # descriptor balance of iv_fd_pump (splice buffers are pipe pairs, cached per thread): single
+            # sessions and many pumps stalled at the same time, judged by MonPump's balance rule
+            import check_c17
+            exe17, _proj = check_c17.build("plain")
+            s17 = check_c17.many_scripts(tier) + check_c17.random_scripts(seed + 3, 300 if tier == "quick" else 5000)
+            i17 = {check_c17.script_id(x): x for x in s17}
+            v17, n17 = check_c17.validate(check_c17.run_scripts(exe17, s17, sc, "pumpfd"), sc)
+            if len(v17) != len(s17):
+                raise vlib.MachineryError("%d pump scripts but %d verdicts" % (len(s17), len(v17)))
+            for v in v17:
+                if "C17:fd-leak" in v["viols"]:
+                    rep.violation("C18:leak-fd/pump", vlib.save_replay_text(pid, i17[v["id"]]), "pump script %s" % v["id"])
+            rep.add(pump_scripts=len(s17), pump_events=n17)
         rep.add(evaluations=len(scripts), distinct_nontrivial=len(nontrivial), traces_validated_against_impl=len(verdicts),
                 trace_events=nev, states=nev + len(tfs), transitions=nev, rules_exercised=dict(seen_rules),
                 ends=dict(collections.Counter(v["why"] for v in verdicts)),
